@@ -1,7 +1,154 @@
-/- Driver glue for C17: case lines `c17.<sub> <args…> | <impl…>` (stub until the property is built) -/
+/-
+  Driver glue for C17. Case line (see harness/cmd/fdharness/c17.go):
+    c17.do <gField> <gValue> <metricOn> <gkind> <paths> <nmasks> <mask>… <root> @ <oracle> | <impl>
+  model column:  ok <root'> <global metric> <n> <mask metric>… | panic:<kind> | oracle-miss | bad-case
+-/
 import FileD.Prelude.Tok
+import FileD.Model.Mask
+import FileD.Spec.C17
 namespace FileD.DrvC17
+open FileD Tok FileD.Mask
 
-def handle (_cmd : String) (_args _impl : List String) : Option (String × String) := none
+abbrev P := StateT (List String) Option
+
+def tok : P String := fun ts => match ts with | [] => none | t :: r => some (t, r)
+def pNat : P Nat := do let t ← tok; match nat? t with | some n => pure n | none => failure
+def pInt : P Int := do let t ← tok; match int? t with | some n => pure n | none => failure
+def pBool : P Bool := do let t ← tok; match bool? t with | some n => pure n | none => failure
+def pBytes : P Bytes := do let t ← tok; match bytes? t with | some n => pure n | none => failure
+
+def pRep {α} (p : P α) : Nat → P (List α)
+  | 0 => pure []
+  | n+1 => do let x ← p; let xs ← pRep p n; pure (x :: xs)
+
+def pList {α} (p : P α) : P (List α) := do let n ← pNat; pRep p n
+
+def pPaths : P (List (List Bytes)) := pList (pList pBytes)
+
+def pTree : P JTree := fun ts => JTree.parse? ts
+
+def pRule : P Rule := do
+  let mode ← pNat
+  let ci ← pBool
+  let inv ← pBool
+  let vals ← pList pBytes
+  let md ← (match mode with | 0 => pure RMode.pre | 1 => pure RMode.contains | 2 => pure RMode.suf | _ => failure : P RMode)
+  pure { values := vals, mode := md, ci := ci, invert := inv }
+
+def pRuleSet : P RuleSet := do
+  let o ← pBool
+  let rules ← pList pRule
+  pure { condOr := o, rules := rules }
+
+/-- a mask as configured: raw groups; `hasRe`; verification needs NumSubexp from the oracle part -/
+structure RawMask where
+  m : MaskCfg
+  rawGroups : List Nat
+
+def pMask : P RawMask := do
+  let re ← pBytes
+  let groups ← pList pNat
+  let maxCount ← pNat
+  let word ← pBytes
+  let cut ← pBool
+  let aField ← pBytes
+  let aValue ← pBytes
+  let metric ← pBool
+  let doif ← pBool
+  if doif then
+    let _ ← pBytes
+    let _ ← pBytes
+  let fkind ← pNat
+  let paths ← pPaths
+  let rules ← pList pRuleSet
+  let mode := if !word.isEmpty then Mode.replace else if cut then Mode.cut else Mode.mask
+  pure { m := { rules := rules, hasRe := !re.isEmpty, groups := [], maxCount := maxCount, replaceWord := word,
+                mode := mode, use := true, appliedField := aField, appliedValue := aValue, metric := metric,
+                fkind := fkind, paths := paths },
+         rawGroups := groups }
+
+def pEntry : P (Nat × Bytes × Matches) := do
+  let i ← pNat
+  let v ← pBytes
+  let ms ← pList (pList pInt)
+  pure (i, v, ms)
+
+structure Case where
+  cfg : Cfg
+  root : JTree
+  table : List (Nat × Bytes × Matches)
+  valid : Bool
+
+/-- complete the masks with the oracle columns (NumSubexp → verified groups, do_if verdict) -/
+def finishMasks : List RawMask → P (List MaskCfg × Bool)
+  | [] => pure ([], true)
+  | r :: rs => do
+    let nsubTok ← tok
+    let use ← pBool
+    let (ms, ok) ← finishMasks rs
+    if r.m.hasRe then
+      match nat? nsubTok with
+      | none => failure
+      | some nsub =>
+        match verifyGroups r.rawGroups nsub with
+        | some g => pure ({ r.m with groups := g, use := use } :: ms, ok)
+        | none => pure ({ r.m with use := use } :: ms, false)
+    else pure ({ r.m with groups := r.rawGroups, use := use } :: ms, ok)
+
+def pCase : P Case := do
+  let gField ← pBytes
+  let gValue ← pBytes
+  let metricOn ← pBool
+  let gkind ← pNat
+  let gpaths ← pPaths
+  let raws ← pList pMask
+  let root ← pTree
+  let sep ← tok
+  if sep ≠ "@" then failure
+  let (masks, ok) ← finishMasks raws
+  let table ← pList pEntry
+  pure { cfg := { masks := masks, gField := gField, gValue := gValue, metricOn := metricOn, gkind := gkind, gpaths := gpaths },
+         root := root, table := table, valid := ok }
+
+def lookupTable (t : List (Nat × Bytes × Matches)) : Oracle := fun i v =>
+  match t.find? (fun e => e.1 == i && e.2.1 == v) with
+  | some e => some e.2.2
+  | none => none
+
+def encResult (r : Result) : String :=
+  unwords (["ok", r.root.enc, toString r.globalMetric, toString r.maskMetrics.length] ++ r.maskMetrics.map toString)
+
+def failTok : Fail → String
+  | .panic p => panicTok p
+  | .oracleMiss => "oracle-miss"
+
+/-- `ok <tree> <global> <n> <counts…>` of the implementation column -/
+def pImpl : P Result := do
+  let t ← tok
+  if t ≠ "ok" then failure
+  let root ← pTree
+  let g ← pNat
+  let per ← pList pNat
+  pure { root := root, globalMetric := g, maskMetrics := per }
+
+def handle (cmd : String) (args impl : List String) : Option (String × String) :=
+  if cmd ≠ "c17.do" then none else
+  match pCase.run args with
+  | none => none
+  | some (c, rest) =>
+    if rest ≠ [] then none
+    else if !c.valid then some ("bad-case", "ok")
+    else
+      let re := lookupTable c.table
+      let m := match doEvent fixedImpl c.cfg re c.root with
+        | .ok r => encResult r
+        | .error e => failTok e
+      let p := match pImpl.run impl with
+        | some (r, []) => SpecC17.verdict c.cfg re c.root r
+        | _ =>
+          match impl with
+          | t :: _ => if t.startsWith "panic" then "fail:panic" else if t.startsWith "bad-" then "ok" else "fail:" ++ t
+          | [] => "bad-impl"
+      some (m, p)
 
 end FileD.DrvC17
